@@ -42,6 +42,29 @@ theorem keyCmp_totalPreorder (key : Nat → Nat) : TotalPreorder (keyCmp key) :=
   · intro a b c h1 h2
     rw [keyCmp_nonneg] at *; omega
 
+/-- the harness comparator `cmp=diff`: the 64-bit difference of the two values, computed without
+wrap-around and clamped to the range of `int` (what a correct "subtracting" comparator returns) -/
+def diffCmp (a b : Nat) : Int :=
+  let d : Int := (a : Int) - (b : Int)
+  if d > 2147483647 then 2147483647 else if d < -2147483648 then -2147483648 else d
+
+theorem diffCmp_nonneg (a b : Nat) : 0 ≤ diffCmp a b ↔ b ≤ a := by
+  unfold diffCmp; simp only
+  split
+  · omega
+  · split <;> omega
+
+theorem diffCmp_nonpos (a b : Nat) : diffCmp a b ≤ 0 ↔ a ≤ b := by
+  unfold diffCmp; simp only
+  split
+  · omega
+  · split <;> omega
+
+theorem diffCmp_totalPreorder : TotalPreorder diffCmp := by
+  constructor
+  · intro a b h; rw [diffCmp_nonpos] at h; rw [diffCmp_nonneg]; exact h
+  · intro a b c h1 h2; rw [diffCmp_nonneg] at *; omega
+
 namespace PQ
 
 /-- `x` is held and no held element has strictly higher priority -/
